@@ -34,8 +34,8 @@ def anchors():
 def cases(seed, tier):
     q = tier == "quick"
     xfs = ["rot", "reflect", "translate", "scale", "axis", "sim"]
-    out = [{"fam": "static", "xf": xfs[i % 6], "seed": [seed, 6, i], "count": 2} for i in range(72 if q else 1000)]
-    out += [{"fam": "units", "which": ["time", "length"][i % 2], "seed": [seed, 6, 10 ** 5 + i]} for i in range(24 if q else 300)]
+    out = [{"fam": "static", "xf": xfs[i % 6], "seed": [seed, 6, i], "count": 2} for i in range(96 if q else 1000)]
+    out += [{"fam": "units", "which": ["time", "length"][i % 2], "seed": [seed, 6, 10 ** 5 + i]} for i in range(32 if q else 300)]
     dumps = ["initial_furrow.dmp"] if q else ["initial_furrow.dmp", "last_furrow.dmp", "12_12/step_22.dmp",
                                               "furrow_gauss_velocity/stage4.dmp"]
     for j, f in enumerate(dumps):
